@@ -3,6 +3,7 @@
 package main
 
 import (
+	"encoding/pem"
 	"os/exec"
 	"os"
 	"encoding/json"
@@ -954,4 +955,31 @@ func TestVerifC16Listeners(t *testing.T) {
 		L.AddCases(child.Evaluations)
 	}
 	L.End(true)
+}
+
+// c16CertFor returns certificate + key of a throw-away self-signed leaf for cn in one PEM block.
+func c16CertFor(cn string) []byte {
+	key, err := ecdsa.GenerateKey(elliptic.P256(), rand.Reader)
+	if err != nil {
+		panic(err)
+	}
+	tmpl := &x509.Certificate{SerialNumber: big.NewInt(time.Now().UnixNano()), Subject: pkix.Name{CommonName: cn}, DNSNames: []string{cn}, NotBefore: time.Now().Add(-time.Hour), NotAfter: time.Now().Add(24 * time.Hour),
+		KeyUsage: x509.KeyUsageDigitalSignature, ExtKeyUsage: []x509.ExtKeyUsage{x509.ExtKeyUsageServerAuth}}
+	der, err := x509.CreateCertificate(rand.Reader, tmpl, tmpl, &key.PublicKey, key)
+	if err != nil {
+		panic(err)
+	}
+	kb, _ := x509.MarshalECPrivateKey(key)
+	var buf bytes.Buffer
+	pem.Encode(&buf, &pem.Block{Type: "CERTIFICATE", Bytes: der})
+	pem.Encode(&buf, &pem.Block{Type: "EC PRIVATE KEY", Bytes: kb})
+	return buf.Bytes()
+}
+
+func c16LeafCN(c *tls.Certificate) string {
+	x, err := x509.ParseCertificate(c.Certificate[0])
+	if err != nil {
+		return "<unparsable>"
+	}
+	return x.Subject.CommonName
 }
